@@ -3,6 +3,7 @@ package main
 // internal/bytealg (assembly in the real runtime): concrete or byte-wise symbolic implementations.
 
 import (
+	"fmt"
 	"strings"
 )
 
@@ -127,4 +128,35 @@ func sortStrings(ss []string) {
 			ss[j], ss[j-1] = ss[j-1], ss[j]
 		}
 	}
+}
+
+// String() of addresses: executed from the real code when the bytes are concrete; with symbolic bytes the text is
+// only ever used for logging/error messages in the code under test, so an opaque placeholder is returned (counted in
+// lossyStrings, which also disables native trace sampling for that path).
+func init() {
+	symStr := func(name, real string) {
+		stubs[real] = func(in *Interp, fr *frame, a []Value) Value {
+			sl, ok := a[0].(SliceV)
+			concrete := ok
+			if ok && sl.Arr != nil {
+				if !sl.N.IsConst() || !sl.Off.IsConst() {
+					concrete = false
+				} else {
+					for i := 0; i < int(sl.N.V); i++ {
+						if t, isT := sl.Arr[int(sl.Off.V)+i].(*Term); !isT || !t.IsConst() {
+							concrete = false
+							break
+						}
+					}
+				}
+			}
+			if concrete {
+				return in.execSSA(fr.caller, fr.fn, a, nil)
+			}
+			in.lossyStrings++
+			return fmt.Sprintf("<%s#%d>", name, in.lossyStrings)
+		}
+	}
+	symStr("ip", "(net.IP).String")
+	symStr("mac", "(net.HardwareAddr).String")
 }
